@@ -154,7 +154,7 @@ _LOG_NOTE = ("trusted: the reference interpreter (severity >= compile-time minim
              "formatter/sink in checks/logmc.hpp; one binary per compile-time minimum; single-threaded (C09 covers threads)")
 TEXT["C05"] = dict(engine="enum", design_ref="DESIGN.md 6 C05",
     technique="exhaustive enumeration of generated log programs per compile-time minimum, event-by-event comparison with a reference interpreter",
-    level="model checking of the implementation over generated programs: for each of the 6 compile-time minima, 14 filter expressions x threshold "
+    level="model checking of the implementation over generated programs: for each of the 6 compile-time minima, 17 filter expressions (severity thresholds, and/or/not, null, and a tag-inspecting filter) x threshold "
           "grids x 6 severities x tag/no tag x both syntactic forms, threshold changes between statements, every item tuple of length <= 3 over "
           "9 item kinds (strings, numbers, callables, manipulators, a callable that itself logs), every sequence of <= 3 statements over 7, and "
           "two overlapping named streams; the event log (format, then each sequence-sink member in order, per enabled statement, in program "
